@@ -289,6 +289,29 @@ class MLock:
   def __exit__(self, *a): self.release()
 
 
+class MRLock:
+  """threading.RLock: re-entrant for its owner thread"""
+  def __init__(self, ctl=None): self.ctl = ctl or Controller.cur; self.owner = None; self.count = 0
+  def _me(self): return self.ctl.me() or 'main'
+  def acquire(self, blocking=True, timeout=-1):
+    me = self._me()
+    if self.owner is me:
+      self.count += 1; return True
+    if not blocking:
+      if self.owner is not None: return False
+    else:
+      ok = self.ctl.block(lambda: self.owner is None, None if timeout is None or timeout < 0 else timeout, 'RLock.acquire')
+      if not ok and not self.ctl.draining: return False
+    self.owner = me; self.count = 1
+    return True
+  def release(self):
+    if self.owner is not self._me() and not self.ctl.draining: raise RuntimeError("cannot release un-acquired lock")
+    self.count -= 1
+    if self.count <= 0: self.owner = None; self.count = 0
+  def __enter__(self): self.acquire(); return True
+  def __exit__(self, *a): self.release()
+
+
 class MEvent:
   def __init__(self, ctl=None): self.ctl = ctl or Controller.cur; self.flag = False; self.sets = 0
   def set(self): self.flag = True; self.sets += 1
@@ -336,6 +359,7 @@ class ThreadingModule:
   """what recoco sees as `threading`: model Lock/Event, controlled threads, the real rest"""
   def __init__(self, ctl): self.ctl = ctl
   def Lock(self): return MLock(self.ctl)
+  def RLock(self): return MRLock(self.ctl)
   def Event(self): return MEvent(self.ctl)
   def Thread(self, *a, **k): return CThread(*a, ctl=self.ctl, **k)
   def current_thread(self):
